@@ -7,8 +7,11 @@ from typing import Dict, List, Optional
 from harness.lib.core import VERIF, Ctx, lean_lock, run_driver, shrink_ops
 from harness.extract import software as x_sw
 from harness.extract import software_recv as x_recv
+from harness.extract import software_loader as x_load
+from harness.extract import software_regs as x_regs
 from harness.rigs import software as rig
 from harness.rigs import software_recv as wrig
+from harness.rigs import software_load as lrig
 
 MANIFEST = {
     "text": "Lean 4 proof about an executable model of Service / Application / Software (lifecycle methods, request validators, "
@@ -46,6 +49,19 @@ MANIFEST = {
             "tick the inactivity counter reaches keep_alive_frequency; answered -> established for ever; unanswered -> the connection "
             "is reset and the beacon close()s itself on that tick; the server resets after more than keep_alive_frequency silent "
             "ticks; commands need a remote; only a RUNNING, healthy instance with an active connection does anything at a tick). "
+            "ROUND 7 (configuration -> lifecycle): the statements of PrimaiteGame.from_config that apply the scenario's `defaults:` section "
+            "to a service installed from a node's `services:` list are TRANSLATED on every run (semantically: membership, d[k], d.get, int(), "
+            "truthiness, walrus, constant loops unrolled) and proved equal, for all mappings and values, to the specification 'a configured "
+            "duration is the effective one whatever its value - 0, negative, quoted - and an absent key leaves the class default'; composed "
+            "with the lifecycle theorems: a service restarted after the loader configured duration v is RESTARTING through max(v,0) ticks and "
+            "RUNNING at the next, for every integer v; every writer of restart_duration / install_duration in the package is pinned. "
+            "install timing is ONE theorem over Node.run for applications too (C13_node_install_timing: for every operation sequence, raising "
+            "operations included, INSTALLING while fewer than max(c,1) ticks were delivered, RUNNING + GOOD at that tick; refinement "
+            "C13_run_application); SoftwareManager.install and SoftwareManager.uninstall are TRANSLATED statement by statement (guard, constructor, eviction, "
+            "list / route / table writes, start / install / forced CLOSED, in source order) and proved equal AS WHOLE METHODS to the model's "
+            "installSvc / installApp / uninstall for every node state in which no object is both a service and an application (a "
+            "hypothesis, not proved preserved), with programs sharing a (port, protocol) key: the last installer owns the slot, "
+            "uninstalling a non-owner keeps it, uninstalling the owner empties it although another program with the key is installed. "
             "CONNECTION BOOKKEEPING (add_connection / terminate_connection): health becomes OVERWHELMED exactly when a connection is "
             "requested at max_sessions; the table never exceeds max_sessions. "
             "Tie: guard tables, validators, countdown idioms, enum values, defaults, the shipped-class table (every receive() "
@@ -53,7 +69,10 @@ MANIFEST = {
             "functions and the normalised bodies of the class methods the payload model follows (Gen/Software.lean, "
             "Gen/SoftwareRecv.lean, obligations C13_gen_*); differential rigs: R-svc on real Computer, Server, Router, Switch and "
             "Firewall nodes over every shipped class; R-recv on two real hosts joined by a real link (real receive of the six "
-            "modelled classes, real NIC/ARP/HostNode/SessionManager/SoftwareManager transport); R-conn and R-bot on real instances.",
+            "modelled classes, real NIC/ARP/HostNode/SessionManager/SoftwareManager transport); R-conn and R-bot on real instances; R-load builds generated scenarios THROUGH "
+            "PrimaiteGame.from_config (defaults section with boundary values, per-service options, applications) and diffs the loaded "
+            "attributes against the specification and requests / whole-game steps / run-time installs against the model instantiated with "
+            "the CONFIGURED durations (enumerated over the value pool + random).",
     "note": "C13-specific: payload processing is modelled for DNS, NTP and web client/server and the three attack loops — FTP client / "
             "server (STOR / RETR, files), database service / client, terminal (C16) are followed only as far as routing and the running-guard; of the C2 suite the "
             "connection state machine is modelled (one tick, keep-alive handlers, command gate; the peer and the network enter as the "
@@ -65,13 +84,16 @@ MANIFEST = {
             "Node.apply_timestep is modelled at its place in the per-service loop only while no power countdown is pending; "
             "termination of the model's transport is proved for nodes with at most 61 installed programs (fuel 4096); "
             "class-specific `execute`/`configure` requests, C2Beacon closing itself, DatabaseService's nested FTPClient install, "
-            "install timing as a single run-level theorem (services only) are not covered; router/firewall frame paths only as far "
+            "are not covered; of the loader only the defaults block of the "
+            "services loop is translated (install_duration has no configuration source: class default only; per-service `fixing_duration` "
+            "options are C14/C20's; float / underscore numerals of the defaults section are outside the value model); router/firewall frame paths only as far "
             "as the hand-over test to the session manager.",
     "technique": "Lean 4 theorems over executable lifecycle, registry, receive-path and payload models; models tied by regenerated "
                  "tables, by source-to-Lean translation of the software manager's functions and by three differential rigs",
     "design_ref": "5/C13",
 }
-MODULES = ["PrimaiteModel.Props.C13", "PrimaiteModel.Lemmas.RegistriesRep", "PrimaiteModel.Props.C13Recv", "PrimaiteModel.Props.C13Bots", "PrimaiteModel.Props.C13C2"]
+MODULES = ["PrimaiteModel.Props.C13", "PrimaiteModel.Lemmas.RegistriesRep", "PrimaiteModel.Props.C13Recv", "PrimaiteModel.Props.C13Bots", "PrimaiteModel.Props.C13C2",
+           "PrimaiteModel.Props.C13Loader", "PrimaiteModel.Props.C13AppRun", "PrimaiteModel.Props.C13Regs"]
 EXE = "drv_c13"
 EXE_W = "drv_c13recv"   # two nodes with class data and a transport (receive path, DNS / NTP payload processing)
 
@@ -254,12 +276,103 @@ def _check_world_case(ctx: Ctx, name: str, case: dict, res: dict, model: List[st
     return False
 
 
+_LOAD_REPORTED: Dict[str, int] = {}
+
+
+def _load_report(ctx: Ctx, sig: dict, what: str, replay_rec: dict):
+    """at most two reports per signature (an enumerated family makes every member fail at once)"""
+    key = json.dumps(sig, sort_keys=True)
+    _LOAD_REPORTED[key] = _LOAD_REPORTED.get(key, 0) + 1
+    ctx.count("load:violations:" + sig.get("where", sig.get("kind", "?")))
+    if _LOAD_REPORTED[key] <= 2:
+        ctx.violation(sig, what, replay_rec)
+
+
+def _check_load_case(ctx: Ctx, name: str, case: dict, res: dict, model: List[str], guards: Dict[str, bool]) -> bool:
+    """R-load: a scenario built through PrimaiteGame.from_config vs the loader specification and the lifecycle / registry model"""
+    ctx.cov["traces_validated_against_impl"] += 1
+    j = _diff(res, model)
+    d = case["defaults"] if case.get("section", "present") == "present" else {}
+    ctx.case({"load": {"defaults": lrig.show_dict(d), "node": case["node"]}, "lines": [l for l in res["lines"][1:] if l != "dump"]},
+             any(k in d for k in lrig.KEYS))
+    ctx.count("load:focus:" + case.get("focus", "?"))
+    ctx.count("load:section:" + case.get("section", "present"))
+    for k in lrig.KEYS:
+        ctx.count(f"load:{k}=" + (lrig.show_val(d[k]) if k in d else "absent"))
+    ctx.count("load:outcome:" + ("loaded" if res["loaded"] else "raised"))
+    for e in case["node"]["services"]:
+        ctx.count("load:svc:" + e["type"] + (":own-fixing" if "fixing_duration" in e.get("options", {}) else ""))
+    for e in case["node"]["applications"]:
+        ctx.count("load:app:" + e["type"])
+    # completed timed transitions seen on loaded services: RESTARTING at one dump, RUNNING at a later one
+    for q, m in zip(res["lines"], model):
+        if q == "dump":
+            continue
+        w = q.split()
+        if w[0] in ("sreq", "areq"):
+            ctx.count(f"load:req:{w[2]}:{m}")
+        elif w[0] in ("tick", "rinst", "runinst", "rshut", "rstart"):
+            ctx.count(f"load:op:{w[0]}:{m}")
+        if m == "bad-op":
+            raise RuntimeError(f"driver rejected line {q!r}")
+    seen = set()
+    for (i, kind, detail, extra) in res["oracle"]:
+        sig = {"kind": kind, "via": "loader"}
+        if kind == "configured-duration-not-effective":
+            sig.update({"key": "service_restart_duration", "value": extra})
+        key = json.dumps(sig, sort_keys=True)
+        if key in seen:
+            continue
+        seen.add(key)
+        ctx.count("oracle:" + kind)
+        _load_report(ctx, sig, f"{kind} (scenario loaded through PrimaiteGame.from_config) after op {i} of {name}: {detail}",
+                     {"load_case": dict(case, ops=[]) if i < 0 else case, "from": name, "op_index": i, "oracle": kind})
+    if j < 0:
+        return True
+    n_init = next((k for k, l in enumerate(res["lines"]) if l == "dump"), 0)
+    if j <= n_init:
+        small = dict(case, ops=[])
+    else:
+        def fails(ops, case=case):
+            c = dict(case, ops=ops)
+            try:
+                r2 = lrig.run_load_case(c, guards)
+                return _diff(r2, run_driver(EXE, r2["lines"])) >= 0
+            except Exception:  # noqa
+                return False
+        small = dict(case, ops=shrink_ops(case["ops"], fails, budget=60))
+    res2 = lrig.run_load_case(small, guards)
+    model2 = run_driver(EXE, res2["lines"])
+    j2 = _diff(res2, model2)
+    if j2 < 0:
+        small, res2, model2, j2 = case, res, model, j
+    line = res2["lines"][j2] if j2 < len(res2["lines"]) else "?"
+    prev = res2["lines"][j2 - 1] if j2 > 0 else "?"
+    if line.startswith("loadall"):
+        sig = {"kind": "model-vs-impl", "where": "loader-defaults-block"}
+        what = (f"attributes of the listed services after PrimaiteGame.from_config differ from the proved specification "
+                f"(defaults={lrig.show_dict(d)}): impl={res2['impl'][j2]!r} spec={model2[j2]!r}")
+    else:
+        sig = {"kind": "model-vs-impl", "where": "loaded-state" if line == "dump" else "loaded-answer",
+               "op": (prev if line == "dump" else line).split()[0]}
+        what = (f"software of a node loaded through PrimaiteGame.from_config (defaults={lrig.show_dict(d)}) differs from the proved model "
+                f"instantiated with the CONFIGURED durations at line {j2} ({prev!r} / {line!r}): impl={res2['impl'][j2] if j2 < len(res2['impl']) else None!r} "
+                f"model={model2[j2] if j2 < len(model2) else None!r}")
+    _load_report(ctx, sig, what, {"load_case": small, "lines": res2["lines"], "impl": res2["impl"], "model": model2, "first_diff": j2, "from": name})
+    return False
+
+
 def replay(rec: dict) -> bool:
     r = rec["replay"]
     with lean_lock():
         from harness.lib.core import lake_build
         lake_build([EXE, EXE_W])
     guards = _guards()
+    if "load_case" in r:
+        res = lrig.run_load_case(r["load_case"], guards)
+        if r.get("oracle"):
+            return not any(k == r["oracle"] for (_, k, _, _) in res["oracle"])
+        return _diff(res, run_driver(EXE, res["lines"])) < 0
     if "c2_case" in r:
         res = wrig.run_c2_case(r["c2_case"])
         if r.get("oracle"):
@@ -301,6 +414,8 @@ def run(ctx: Ctx):
     with lean_lock():
         ctx.extract("Software", x_sw.emit)
         ctx.extract("SoftwareRecv", x_recv.emit)
+        ctx.extract("SoftwareLoader", x_load.emit)
+        ctx.extract("SoftwareRegs", x_regs.emit)
         ctx.prove(MODULES, exes=[EXE, EXE_W], clean=False, leanchecker=ctx.thorough)
     guards = _guards()
     ctx.cov["rule"] = ("cases = (node power and durations, operation sequence over install/uninstall (API and request) of every shipped "
@@ -400,6 +515,31 @@ def run(ctx: Ctx):
                     ctx.sample({"case": name, "node": case["node"], "lines": [l for l in res["lines"] if l != "dump"][10:18],
                                 "answers": [m for q, m in zip(res["lines"], model) if q != "dump"][10:18]}, cap=3)
     ctx.oblige("rig:R-svc agrees on every trace", "correspondence", agree == len(cases), f"{len(cases) - agree} of {len(cases)} traces disagree")
+
+    # -- R-load: scenarios built THROUGH PrimaiteGame.from_config (defaults section, per-service options, run-time installs) vs the
+    #    loader specification (`loadall`) and the lifecycle / registry model instantiated with the CONFIGURED durations
+    load_cases = []
+    _LOAD_REPORTED.clear()
+    for f in sorted((VERIF / "corpus" / "C13" / "load").glob("*.json")):
+        load_cases.append(("corpus:load/" + f.name, json.loads(f.read_text())["case"]))
+    for k, c in enumerate(lrig.enum_load_cases()):
+        load_cases.append((f"load-enum:{k}", c))
+    lrng = ctx.rng.fork("load")
+    for k in range(ctx.scale(200, 4000)):
+        load_cases.append((f"load-gen:{k}", lrig.gen_load_case(lrng, max_ops=ctx.scale(20, 36))))
+    results, lines_all, bounds = [], [], []
+    for name, case in load_cases:
+        res = lrig.run_load_case(case, guards)
+        bounds.append((len(lines_all), len(res["lines"])))
+        lines_all += res["lines"] + ["reset"]
+        results.append(res)
+    model_all = run_driver(EXE, lines_all, timeout=3000)
+    lagree = 0
+    for (name, case), res, (st, ln) in zip(load_cases, results, bounds):
+        if _check_load_case(ctx, name, case, res, model_all[st:st + ln], guards):
+            lagree += 1
+    ctx.oblige("rig:R-load (scenario -> PrimaiteGame.from_config -> configured durations -> timed transitions) agrees on every trace",
+               "correspondence", lagree == len(load_cases), f"{len(load_cases) - lagree} of {len(load_cases)} traces disagree")
 
     # -- R-recv: two real hosts on a link vs the two-node model (receive path, DNS / NTP payload processing, transport)
     wrng = ctx.rng.fork("world")
